@@ -36,6 +36,25 @@ fn prop_value(rng: &mut Rng) -> Option<V> {
     }
 }
 
+/// `{absent, null, -1, 0, 1, 2, 3, 5, 0.25, 0.5, 1.5, 2.5, -0.75}`
+fn num_value(rng: &mut Rng) -> Option<V> {
+    match rng.below(16) {
+        0 | 1 => None,
+        2 => Some(V::Null),
+        3 => Some(V::Int(-1)),
+        4 => Some(V::Int(0)),
+        5 | 6 => Some(V::Int(1)),
+        7 => Some(V::Int(2)),
+        8 => Some(V::Int(3)),
+        9 => Some(V::Int(5)),
+        10 => Some(V::Flt(0.25)),
+        11 | 12 => Some(V::Flt(0.5)),
+        13 => Some(V::Flt(1.5)),
+        14 => Some(V::Flt(2.5)),
+        _ => Some(V::Flt(-0.75)),
+    }
+}
+
 pub fn gen_graph(rng: &mut Rng) -> G {
     let mut g = G::default();
     let n = match rng.below(10) {
@@ -65,6 +84,20 @@ pub fn gen_graph(rng: &mut Rng) -> G {
             4 => node.props.push(("j".into(), V::Str("a".into()))),
             x => node.props.push(("j".into(), V::Int(x as i64 - 5))),
         }
+        // g: a grouping key with few values (absent and null collide on null)
+        match rng.below(8) {
+            0 | 1 => {}
+            2 => node.props.push(("g".into(), V::Null)),
+            3 | 4 => node.props.push(("g".into(), V::Str("a".into()))),
+            5 => node.props.push(("g".into(), V::Str("b".into()))),
+            6 => node.props.push(("g".into(), V::Int(0))),
+            _ => node.props.push(("g".into(), V::Bool(true))),
+        }
+        // v: what aggregates chew on — small integers and non-integral multiples of 0.25
+        // (every sum is exact in f64 and independent of the order of addition), null, absent
+        if let Some(v) = num_value(rng) {
+            node.props.push(("v".into(), v));
+        }
         if rng.chance(1, 4) {
             node.props.push(("l".into(), if rng.chance(1, 2) { V::List(vec![V::Int(1)]) } else { V::List(vec![V::Flt(1.0), V::Str("a".into())]) }));
         }
@@ -93,6 +126,11 @@ pub fn gen_graph(rng: &mut Rng) -> G {
             }
             if rng.chance(1, 3) {
                 props.push(("w".to_string(), V::Int(rng.range(0, 2))));
+            }
+            if rng.chance(1, 2) {
+                if let Some(v) = num_value(rng) {
+                    props.push(("v".to_string(), v));
+                }
             }
             g.rels.push(GRel { src, tgt, ty: if rng.chance(3, 5) { "R".into() } else { "S".into() }, props });
         }
@@ -166,8 +204,10 @@ impl<'a> QGen<'a> {
             return None;
         }
         let (v, k) = self.rng.pick(&ents).clone();
-        let key = match (k, self.rng.below(16)) {
+        let key = match (k, self.rng.below(20)) {
             (_, 0) => "zz",
+            (_, 16 | 17) => "v",
+            (Kind::Node, 18 | 19) => "g",
             (_, 10..) => "k",
             (Kind::Rel, 1..=4) => "w",
             (Kind::Rel, _) => "k",
@@ -420,49 +460,82 @@ impl<'a> QGen<'a> {
     }
 
     fn gen_agg(&mut self, alias: String) -> Item {
-        let kinds: &[AggKind] = if self.version >= 2 {
-            &[AggKind::CountStar, AggKind::Count, AggKind::Count, AggKind::Sum, AggKind::Avg, AggKind::Min, AggKind::Max, AggKind::Collect]
-        } else {
-            &[AggKind::CountStar, AggKind::Count, AggKind::Count]
-        };
+        let kinds: &[AggKind] = &[
+            AggKind::CountStar, AggKind::Count, AggKind::Count, AggKind::Sum, AggKind::Sum, AggKind::Sum,
+            AggKind::Avg, AggKind::Min, AggKind::Max, AggKind::Collect,
+        ];
         let k = *self.rng.pick(kinds);
         if k == AggKind::CountStar {
             return Item::Agg(k, false, E::Lit(V::Null), alias);
         }
         let distinct = match k {
+            // sum/avg DISTINCT: known finding `aggregate-distinct-ignored`
             AggKind::Sum | AggKind::Avg => self.risky && self.rng.chance(1, 2),
-            AggKind::Count => self.rng.chance(1, 4),
-            _ => self.version >= 2 && self.rng.chance(1, 4),
+            AggKind::Count => self.rng.chance(1, 3),
+            _ => self.rng.chance(1, 5),
         };
-        let arg = match k {
-            AggKind::Count | AggKind::Collect | AggKind::Min | AggKind::Max => {
-                if self.rng.chance(1, 4) && !self.scope.is_empty() && k == AggKind::Count {
-                    let sc = self.scope.clone();
-                    E::Var(self.rng.pick(&sc).0.clone())
-                } else {
-                    self.prop_access().unwrap_or(E::Lit(V::Int(1)))
-                }
-            }
-            _ => {
-                // numeric-ish argument: j mostly
-                let ents: Vec<String> = self.scope.iter().filter(|(_, k)| *k != Kind::Val).map(|(n, _)| n.clone()).collect();
-                if ents.is_empty() {
-                    let vals = self.vars_of(Kind::Val);
-                    if vals.is_empty() { E::Lit(V::Int(1)) } else { E::Var(self.rng.pick(&vals).clone()) }
-                } else {
-                    let v = self.rng.pick(&ents).clone();
-                    E::prop(&v, if self.rng.chance(3, 4) { "j" } else { "k" })
-                }
+        let ents: Vec<String> = self.scope.iter().filter(|(_, k)| *k != Kind::Val).map(|(n, _)| n.clone()).collect();
+        let arg = if ents.is_empty() {
+            let vals = self.vars_of(Kind::Val);
+            if vals.is_empty() { E::Lit(V::Int(1)) } else { E::Var(self.rng.pick(&vals).clone()) }
+        } else {
+            let v = self.rng.pick(&ents).clone();
+            match k {
+                AggKind::Sum | AggKind::Avg => match self.rng.below(10) {
+                    0 => E::prop(&v, "j"),
+                    1 => E::prop(&v, "k"),
+                    _ => E::prop(&v, "v"),
+                },
+                _ => match self.rng.below(10) {
+                    // collect(DISTINCT <entity>) answers [] (known finding): rare
+                    0 if k == AggKind::Count || (k == AggKind::Collect && (!distinct || self.rng.chance(1, 10))) => E::Var(v),
+                    1 => E::prop(&v, "j"),
+                    2 | 3 => E::prop(&v, "k"),
+                    4 => E::prop(&v, "g"),
+                    _ => E::prop(&v, "v"),
+                },
             }
         };
         Item::Agg(k, distinct, arg, alias)
     }
 
+    /// a grouping key: mostly a property of `key_var` (all keys on ONE variable is the
+    /// engine's identity-grouping fast path), else of any variable, the variable itself, or
+    /// an expression
+    fn gen_group_key(&mut self, key_var: &Option<String>) -> E {
+        let ents: Vec<String> = self.scope.iter().filter(|(_, k)| *k == Kind::Node).map(|(n, _)| n.clone()).collect();
+        if ents.is_empty() {
+            return self.gen_item_expr();
+        }
+        let v = match key_var {
+            Some(v) => v.clone(),
+            None => self.rng.pick(&ents).clone(),
+        };
+        match self.rng.below(20) {
+            0..=8 => E::prop(&v, "g"),
+            9 | 10 => E::prop(&v, "k"),
+            11 => E::prop(&v, "j"),
+            12 => E::prop(&v, "zz"),
+            13 | 14 => E::Var(v),
+            15 => E::IsNull(Box::new(E::prop(&v, "g"))),
+            16 => E::Coalesce(Box::new(E::prop(&v, "g")), Box::new(E::Lit(V::Str("z".into())))),
+            17 => E::Cmp(CmpOp::Eq, Box::new(E::prop(&v, "g")), Box::new(E::Lit(V::Str("a".into())))),
+            _ => self.gen_item_expr(),
+        }
+    }
+
     /// a projection; `is_return` = final clause (otherwise WITH: aliases become the new scope)
     fn gen_proj(&mut self, is_return: bool) -> Proj {
         let mut p = Proj::default();
-        let with_agg = self.rng.chance(1, 4);
+        let with_agg = self.rng.chance(7, 20);
         let mut n_items = 1 + self.rng.usize(3);
+        // 3 in 5 grouped projections draw every key from one variable
+        let key_var: Option<String> = if with_agg && self.rng.chance(3, 5) {
+            let ns = self.vars_of(Kind::Node);
+            if ns.is_empty() { None } else { Some(self.rng.pick(&ns).clone()) }
+        } else {
+            None
+        };
         // WITH <aggregates only> over no rows: the engine returns no row (known deviation)
         let need_key = !is_return && with_agg && !self.risky;
         if need_key && n_items == 1 {
@@ -475,7 +548,7 @@ impl<'a> QGen<'a> {
                 p.items.push(self.gen_agg(alias.clone()));
                 new_scope.push((alias, Kind::Val));
             } else {
-                let e = self.gen_item_expr();
+                let e = if with_agg { self.gen_group_key(&key_var) } else { self.gen_item_expr() };
                 // a bare variable may go un-aliased (column name = variable name); WITH keeps entity kinds
                 match &e {
                     E::Var(x) if !p.items.iter().any(|it| it.alias() == x) && (self.rng.chance(1, 2) || !is_return) => {
@@ -502,7 +575,11 @@ impl<'a> QGen<'a> {
             for _ in 0..nk {
                 let by_alias = p.distinct || with_agg || self.rng.chance(2, 3);
                 let e = if by_alias {
-                    let it = self.rng.pick(&p.items).clone();
+                    let sortable: Vec<Item> = p.items.iter().filter(|it| !matches!(it, Item::Agg(AggKind::Collect, ..))).cloned().collect();
+                    if sortable.is_empty() {
+                        continue;
+                    }
+                    let it = self.rng.pick(&sortable).clone();
                     E::Var(it.alias().to_string())
                 } else {
                     self.prop_access().unwrap_or_else(|| E::Var(p.items[0].alias().to_string()))
